@@ -195,6 +195,62 @@ class CycleSound(CycleBase):
                 ("error-branch-unreachable", st.errors.n == st.old.errors.n)]
 
 
+card = z3.Function("card", IdSet, IntSort())        # number of elements of a finite set of ids (Finset.card, L-CARD)
+ALLS = z3.Const("ids_of_all_statements", IdSet)
+
+
+def card_axioms():
+    """L-CARD (lemmas/LCard.lean): card >= 0; inserting a new element adds one; a subset has at most as many elements"""
+    S, T = z3.Consts("S T", IdSet)
+    x = z3.Const("x", Id)
+    y = z3.Const("y", Id)
+    return [ForAll([S], card(S) >= 0, patterns=[card(S)]),
+            ForAll([S, x], Implies(Not(Select(S, x)), card(Store(S, x, True)) == card(S) + 1),
+                   patterns=[card(Store(S, x, True))]),
+            ForAll([S, T], Implies(ForAll([y], Implies(Select(S, y), Select(T, y))), card(S) <= card(T)),
+                   patterns=[z3.MultiPattern(card(S), card(T))])]
+
+
+class CycleTerminates(CycleBase):
+    """'never hangs': the while loop of the cycle detector terminates on every input (lexicographic variant:
+    number of statement ids not yet visited, then the length of the stack); finite-set cardinality from L-CARD"""
+    variant_name = "termination"
+    closed = False
+    any_raise_ok = True            # leaving by KeyError is also leaving
+    prune_quantified = False
+    axioms = property(lambda self: tuple(card_axioms()))
+
+    def requires(self, st):
+        j = z3.Int("j")
+        return super().requires(st) + [
+            ("ids-of-all-statements", ForAll([j], Implies(And(0 <= j, j < self.n0), Select(ALLS, sid(Select(self.a0, j))))))]
+
+    def inv_outer(self, s, inner=False):
+        K = s.stack
+        m = z3.Int("m")
+        x = z3.Const("x", Id)
+        return [("stack-len", K.n >= (1 if inner else 0)),
+                ("stack-entries-are-statements", ForAll([m], Implies(And(0 <= m, m < K.n), self.In(Select(K.a, m))))),
+                ("only-ids-of-statements-are-visited", ForAll([x], Implies(Select(s.visited.t, x), Select(ALLS, x))))]
+
+    def inv_inner(self, s):
+        K, E = s.stack, s.entry.stack
+        return self.inv_outer(s, inner=True) + [
+            ("stack-grows", K.n >= E.n),
+            ("visited-unchanged", s.visited.t == s.entry.visited.t)]
+
+    def measure(self, s):
+        return [card(ALLS) - card(s.visited.t), s.stack.n]
+
+    @property
+    def loops(self):
+        return {0: dict(shape="while stack", inv=self.inv_outer, variant=self.measure),
+                1: dict(shape="for neighbor in top.depends_on", inv=self.inv_inner)}
+
+    def ensures(self, st):
+        return []
+
+
 class CycleComplete(CycleBase):
     """closed => no exception; at most one message; if none was added the ghost finishing
     order `fin` is a height function (so the graph is acyclic)"""
@@ -880,7 +936,10 @@ class VerifyCodeContract(DagContract):
 
 
 def units():
+    from pyvc.contracts import LeanUnit
     return [FunctionUnit(CycleFrame()), FunctionUnit(CycleSound()), FunctionUnit(CycleComplete()),
+            FunctionUnit(CycleTerminates()),
+            LeanUnit("lemma:L-CARD", "lemmas/LCard.lean", ["card_nonneg'", "card_insert_new", "card_subset_le"]),
             FunctionUnit(SwitchContract()), FunctionUnit(DepsExistContract()), FunctionUnit(CondRuleContract()),
             FunctionUnit(VerifyCodeContract())]
 
@@ -894,7 +953,10 @@ TRUSTED_BASE = [
 ASSUMPTIONS = [
     "input validity: statement ids are unique within a phase; phase.statements is a finite list; phases is a dict of distinct names",
     "ExecutionPhase.depends_on (a computed property) is a subset of the phase's statement ids (its own contract, C04)",
-    "termination of the cycle detector's while loop ('never hangs') is NOT proved deductively (needs a cardinality argument); covered by the bounded stand-in's step guard only",
+    "termination of the cycle detector ('never hangs'): proved with the lexicographic variant (ids not yet visited, stack length); the three "
+    "cardinality facts used are L-CARD (lemmas/LCard.lean, checked by Lean against Mathlib's Finset.card) entering as quantified axioms over `card`; "
+    "the for loops of the other passes iterate over finite collections (terminate by construction); expected_min: the empty postcondition makes "
+    "this unit's content its variant obligations",
     "str.format / join / str() on messages do not raise (message text is opaque)",
     "set iteration order arbitrary but fixed; dict iteration = arbitrary order over keys (over-approximation of insertion order)",
 ]
